@@ -58,10 +58,11 @@ def rule_separators(ctx, f, b, rid, key):
     return n
 
 
-def every_element(b, site):
+def every_element(b, site, via=None):
     """The call `site` (a Hasher::write / Vec::push whose operand derives from a loop element) is passed on every path through the
-    body of that loop that reaches the next iteration: no element is skipped.  None if the operand is not a loop element."""
-    ops = [t for a in site.args[1:] for t in subterms(a)]
+    body of that loop that reaches the next iteration: no element is skipped.  None if the operand is not a loop element.
+    via: another call site whose operands identify the loop when the operand of `site` is a local built up in the loop body."""
+    ops = [t for a in (via or site).args[1:] for t in subterms(a)]
     nx = [c for c in b.calls_to("Iterator::next") if c.result_term() in ops]
     if not nx:
         return None
@@ -73,3 +74,33 @@ def every_element(b, site):
         if not some or not b.all_paths_pass(some[0], [site.bb], dst_set={n_.bb}):
             return False
     return True
+
+
+FNV_OFFSET_BASIS = 0xcbf29ce484222325
+
+
+def rule_hasher_init(ctx, f, b, rid, key):
+    """Every hasher fed in body b starts from FNV-1a's offset basis: it is `FnvHasher::default()` (directly or through a crate helper that
+    returns exactly that) or `with_key(0xcbf29ce484222325)`.  From state 0 the first multiplications yield 0 again, so leading NUL bytes of
+    the first component would not change the hash ("\\0a" and "a" collide) — the no-collision assumption only covers the standard start."""
+    n = 0
+    for hi, h in enumerate(hasher_events(b)):
+        n += 1
+        ctx.ob(rid, "%s|hasher%d|initial-state" % (key, hi), _std_init(f, h, 0),
+               "the hasher must start as FnvHasher::default() (the FNV-1a offset basis); found %s" % show(h)[:160], site=b.raw["span"]["at"])
+    return n
+
+
+def _std_init(f, h, depth):
+    if not (isinstance(h, tuple) and h and h[0] == "call"):
+        return False
+    name = strip_generics(h[1])
+    if name.endswith("FnvHasher as std::default::Default>::default") or name.endswith("fnv::FnvHasher as Default>::default"):
+        return True
+    if name.endswith("FnvHasher::with_key") and h[2]:
+        return const_int(h[2][0]) == FNV_OFFSET_BASIS
+    if depth < 2 and not h[2]:
+        hb = f.body(h[1]) or f.body(name)
+        if hb is not None:
+            return _std_init(f, peel(hb.term_local(0)), depth + 1)
+    return False
